@@ -68,7 +68,9 @@ def ops : List (String × Op) := [
         | _, _, _ => false
       if !(validIv && cdsInside && winOk) || (kind = "F" && !cds.isEmpty) then pure "n/a" else
       let name : List Char :=
-        if sel = "sym" then optName symbol else if sel = "id" then optName ident else sel.toList.drop 4
+        if sel = "sym" then optName symbol else if sel = "id" then optName ident
+        else if sel = "attr:sequence_name" then optName seqName      -- `name=` may name ANY attribute of the record
+        else sel.toList.drop 4
       let off := match mode, win with
         | "chunk", some (a, _) => a
         | _, _ => 0
